@@ -206,7 +206,17 @@ def text_soup(rnd):
     prefix; most are valid for at least one delimiter -- whether one is, is for the oracle (CPython) to say"""
     pre = rnd.choice(["f", "f", "rf", "F", "fR", "Rf"])
     q = rnd.choice(["'", '"', "'''", '"""', '"""', "'''"])
-    if rnd.random() < 0.4:
+    if len(q) == 3 and rnd.random() < 0.3:
+        # quote sandwich: inside a triple-quoted literal, the other triple quote twice with an operator, a comma or nothing
+        # between the two, single quotes of both kinds and an escape around them -- text that reads like several literals
+        o3 = "'''" if q == '"""' else '"""'
+        parts = [rnd.choice(["\\t", "\\n", "\\x41", "", "\\\\"]), rnd.choice(['"', "'", ""]), " ", o3, rnd.choice([" + x + ", ", ", " x ", "", " + ", "{a}"]), o3, " ", rnd.choice(['"', "'", ""]), rnd.choice(["", " ", "\\t"])]
+        if rnd.random() < 0.3:
+            rnd.shuffle(parts)
+        body = "".join(parts)
+        if body.endswith(q[0]):
+            body += " "
+    elif rnd.random() < 0.4:
         # quote-heavy: several quotes of the other kinds around an escape, operators and names between them (whatever decodes
         # the text must not take a quote inside it for the end of anything)
         body = "".join(rnd.choice(QUOTE_HEAVY) for _ in range(rnd.randrange(4, 10)))
